@@ -123,36 +123,25 @@ impl Object for Macro {
 
         let (arg_values, caller) = ok!(self.prepare_args(args));
         let mut rv = String::new();
-        #[cfg(not(feature = "verif_hooks"))]
-        ok!(vm::eval_macro(
+        #[cfg(feature = "verif_hooks")]
+        let verif_before = state.verif_snapshot();
+        let eval_rv = vm::eval_macro(
             state,
             self.instructions_id,
             self.offset,
             &mut Output::new(&mut rv),
             self.closure,
             caller,
-            arg_values
-        ));
+            arg_values,
+        );
         #[cfg(feature = "verif_hooks")]
-        {
-            let verif_before = state.verif_snapshot();
-            let verif_rv = vm::eval_macro(
-                state,
-                self.instructions_id,
-                self.offset,
-                &mut Output::new(&mut rv),
-                self.closure,
-                caller,
-                arg_values,
-            );
-            crate::verif_hooks::balance::nested(
-                "macro",
-                verif_rv.is_ok(),
-                verif_before,
-                state.verif_snapshot(),
-            );
-            ok!(verif_rv);
-        }
+        crate::verif_hooks::balance::nested(
+            "macro",
+            eval_rv.is_ok(),
+            verif_before,
+            state.verif_snapshot(),
+        );
+        ok!(eval_rv);
 
         Ok(if !matches!(state.auto_escape(), AutoEscape::None) {
             Value::from_safe_string(rv)
